@@ -230,7 +230,7 @@ def one(ctx, i, rep=None):
 
 
 def run(ctx):
-    for i in ctx.indices(800 if ctx.tier == "quick" else 12000, "random"):
+    for i in ctx.indices(2400 if ctx.tier == "quick" else 12000, "random"):
         one(ctx, i)
 
 
